@@ -67,10 +67,11 @@ struct TPool : IPool {
 struct WPool : IPool {
     std::unique_ptr<eventx::WorkThread> w;
     event::Loop *l;
-    explicit WPool(event::Loop *lp) : l(lp) {}
-    bool init(int, int) override { w.reset(new eventx::WorkThread(l)); return true; }
+    int cfg;    // 0: default loop given, per-task loop omitted; 1: no default loop, explicit per-task loop; 2: both given
+    WPool(event::Loop *lp, int c) : l(lp), cfg(c) {}
+    bool init(int, int) override { w.reset(cfg == 1 ? new eventx::WorkThread() : new eventx::WorkThread(l)); return true; }
     cabinet::Token exec(std::function<void()> body, std::function<void()> cb, int) override {
-        if (cb) return w->execute(body, cb, nullptr);
+        if (cb) return w->execute(body, cb, cfg == 0 ? nullptr : l);
         return w->execute(body);
     }
     int status(cabinet::Token t) override { return (int)w->getTaskStatus(t); }
@@ -81,6 +82,7 @@ struct WPool : IPool {
 
 struct Scenario {
     bool work_thread = false;
+    int wt_cfg = 0;
     int mn = 0, mx = 1;
     std::vector<Step> steps;
     std::vector<std::unique_ptr<TaskRec>> tasks;
@@ -269,7 +271,11 @@ void run_step(Scenario *Sp) {
 
 void gen(vh::Rng &r, Scenario &S, vh::Sig &sig) {
     S.work_thread = vh::st().args.mode == "workthread" || (vh::st().args.mode == "mix" && r.chance(1, 4));
-    if (S.work_thread) { S.mn = 1; S.mx = 1; }
+    if (S.work_thread) {
+        S.mn = 1; S.mx = 1; S.wt_cfg = (int)r.below(3);
+        static const char *cn[] = {"workthread_default_loop_only", "workthread_no_default_loop_explicit_task_loop", "workthread_default_and_task_loop"};
+        vh::counter(cn[S.wt_cfg]);
+    }
     else { S.mx = 1 + (int)r.below(6); S.mn = (int)r.below(std::min(S.mx, 3) + 1); }
     int rounds = 1 + (r.chance(1, 4) ? 1 : 0);
     int ngates = 0;
@@ -351,7 +357,7 @@ void gen(vh::Rng &r, Scenario &S, vh::Sig &sig) {
         }
     }
     for (int i = 0; i < ngates; ++i) S.gates.emplace_back(new std::atomic<int>(0));
-    sig.add(S.work_thread); sig.add(S.mn); sig.add(S.mx);
+    sig.add(S.work_thread); sig.add(S.wt_cfg); sig.add(S.mn); sig.add(S.mx);
     S.desc = vh::fmt("%s min=%d max=%d steps=%zu tasks=%d rounds=%d", S.work_thread ? "WorkThread" : "ThreadPool", S.mn, S.mx, S.steps.size(), ntasks_total, rounds);
 }
 
@@ -447,7 +453,7 @@ void one_case(uint64_t idx, vh::Rng &r) {
     S.loop = loop;
     S.loop_tid = vc::gettid_();
     std::unique_ptr<IPool> pool;
-    if (S.work_thread) pool.reset(new WPool(loop)); else pool.reset(new TPool(loop));
+    if (S.work_thread) pool.reset(new WPool(loop, S.wt_cfg)); else pool.reset(new TPool(loop));
     S.pool = pool.get();
     S.ready = pool->init(S.mn, S.mx);
     if (!S.ready) { vh::viol("api/initialize-failed", vh::fmt("initialize(%d,%d) returned false", S.mn, S.mx)); }
